@@ -299,6 +299,27 @@ func genC11(e *emitter, tier string, seed uint64) {
 			tx.Inputs[r.n(len(tx.Inputs))].PreviousTxScript = scr(r.bytes(r.n(30)))
 		case 2:
 			tx.Inputs[0].PreviousTxScript = scr(tmplP2PK(r))
+		case 3:
+			// spent scripts that carry an "ord" envelope without being a P2PKH inscription (P2PK / multisig / arbitrary
+			// prefix + envelope), and P2PKH inscriptions whose "ord" tag or content type uses a PUSHDATA form: the
+			// estimate supports exactly P2PKH and the P2PKH-inscription template, not "anything that looks inscribed"
+			insc := tmplInscription(r)
+			env := insc[25:]
+			var s []byte
+			switch r.n(5) {
+			case 0:
+				s = append(tmplP2PK(r), env...)
+			case 1:
+				s = append(r.bytes(1+r.n(30)), env...)
+			case 2:
+				s = append(append([]byte{}, insc[:25]...), append([]byte{0x00, 0x63, 0x4c, 0x03, 0x6f, 0x72, 0x64}, env[6:]...)...) // PUSHDATA1 "ord"
+			case 3:
+				s = append(append([]byte{}, insc[:24]...), env...) // template cut by one byte
+			default:
+				s = env
+			}
+			tx.Inputs[r.n(len(tx.Inputs))].PreviousTxScript = scr(s)
+			e.note("fee.enveloped-non-template-prev")
 		}
 		// steer the amount relation around the fee threshold
 		fq := feeQuotes[r.n(len(feeQuotes))]
